@@ -1131,3 +1131,38 @@ Qed.
 (* liveness carried over: an event pending in the composed watcher is forwarded at the first tick at which it is final *)
 Lemma in_map_abs_fwd : forall y l, In y (map abs_fwd l) -> exists f, In f l /\ abs_fwd f = y.
 Proof. intros y l H. apply in_map_iff in H as (f & E & H). exists f. auto. Qed.
+
+(* ================================================================== 5. glue with C11's acceptance / rejection theorems *)
+(* C11's rejection cases are `unfit`: values outside the ranges (any other fields), wrong field count *)
+Lemma rejected_values_unfit : forall e f0 s1 s2 f3 f4 s5,
+  x_fields e = [f0; C.VU256 Ty.u256 s1; C.VU256 Ty.u256 s2; f3; f4; C.VU256 Ty.u256 s5] ->
+  ~ CP.fits 16 (C.parse_dec s1) \/ ~ CP.fits 64 (C.parse_dec s2) \/ ~ CP.fits 8 (C.parse_dec s5) -> unfit e.
+Proof. intros e f0 s1 s2 f3 f4 s5 E H. right. rewrite E. apply CP.wm_rejects. exact H. Qed.
+
+Lemma wrong_count_unfit : forall e, length (x_fields e) <> 6%nat -> unfit e.
+Proof.
+  intros e H. right. exists C.EFieldCount. unfold C.to_wormhole_message. change go_wm_field_size with 6%nat.
+  destruct (Nat.eqb_spec (length (x_fields e)) 6); [contradiction|reflexivity].
+Qed.
+
+(* no forwarded message stems from an unfit event *)
+Lemma faithful_not_unfit : forall c EP HP AP f, faithful c EP HP AP f -> ~ unfit (xf_ev f).
+Proof. intros c EP HP AP f (_ & _ & Hi & Cv & _) [H|[err H]]; [contradiction|]. rewrite Cv in H. discriminate H. Qed.
+
+(* the event as the contract emits it and a node reports it (C11's event_fields): the forwarded message has exactly its values *)
+Theorem fitting_event_message : forall c EP HP AP f sender target sequence nonce payload level,
+  faithful c EP HP AP f -> x_fields (xf_ev f) = C.event_fields sender target sequence nonce payload level ->
+  length sender = 32%nat -> 0 <= target <= 65535 -> 0 <= sequence < 18446744073709551616 -> length nonce = 4%nat -> 0 <= level <= 255 ->
+  0 <= W.h_ts (xf_hdr f) ->
+  let m := xf_pub f in
+  m_eaddr m = sender /\ sender = xc_bridge c /\ m_tchain m = target /\ m_seq m = sequence /\ m_nonce m = unbe nonce /\ m_payload m = payload /\ m_cl m = level /\
+  m_echain m = 255 /\ m_tx m = C.hex_to_hash (x_txid (xf_ev f)) /\
+  m_ts m = W.h_ts (xf_hdr f) / 1000 /\ m_tns m = (W.h_ts (xf_hdr f) mod 1000) * 1000000.
+Proof.
+  intros c EP HP AP f sender target sequence nonce payload level (_ & _ & _ & Cv & Sd & Pb & _) E Ls Rt Rs Ln Rl Hts. cbv zeta.
+  rewrite E, (CP.wm_decodes sender target sequence nonce payload level (x_txid (xf_ev f)) Ls Rt Rs Ln Rl) in Cv. injection Cv as Cv.
+  rewrite Pb. pose proof (CP.mp_fields (xf_msg f) (W.h_ts (xf_hdr f))) as F. cbv zeta in F. destruct F as (F1 & F2 & F3 & F4 & F5 & F6 & F7 & F8).
+  pose proof (CP.mp_time_nonneg (xf_msg f) (W.h_ts (xf_hdr f)) Hts) as Tm. cbv zeta in Tm. destruct Tm as [T1 T2].
+  rewrite F1, F2, F3, F4, F5, F6, F7, F8, T1, T2, <- Sd, <- Cv. cbn [C.w_sender C.w_target C.w_seq C.w_nonce C.w_payload C.w_cl C.w_txid].
+  repeat apply conj; reflexivity.
+Qed.
